@@ -60,6 +60,10 @@ def run(rep):
         r_ = grid_drive.perc_record(rng, b, E, percs[k % 7])
         if r_ is not None:
             recs.append(r_)
+    for k in range(20 if quick else 300):
+        b += 1
+        E, peaks, perc = grid_drive.channel_grid(rng)
+        recs.append(grid_drive.perc_record_fixed(b, E, peaks, perc))
     nt = sum(1 for r_ in recs if len(r_['sites']) >= 3 or r_.get('raised') or r_.get('none'))
     for r_ in recs[1:4] + recs[-2:]:
         rep.sample({k: r_[k] for k in ('act', 'E', 'start', 'stop', 'sites', 'perc', 'peaks', 'meta') if k in r_})
